@@ -30,7 +30,7 @@ SUPERS = {
     "odd6": [[1, 0, 1], [0, 2, 0], [-1, 0, 2]],
     "neg2": [[1, 0, 0], [0, -1, 0], [0, 0, 2]],
 }
-CRYSTALS = ("fcc", "hcp", "b2", "fccint", "intfirst", "tet2")
+CRYSTALS = ("fcc", "hcp", "b2", "fccint", "intfirst", "tet2", "fcctet")
 DIALECTS = ("plain", "cart", "selective", "names", "scaled", "wrapped", "jitter", "trim")
 
 
@@ -48,6 +48,13 @@ def make_crystal(name):
         # the interstitial sublattice is chemistry index 0 (host is index 1)
         fcc = crystal.Crystal.FCC(1.3, "Ni")
         return crystal.Crystal(fcc.lattice, [[np.array([0.5, 0.5, 0.5])], [np.zeros(3)]], ["C", "Ni"]), (0,)
+    if name == "fcctet":
+        # dense interstitial network at unit lattice constant (octahedral + both tetrahedral sites): in 2x2x2 and
+        # larger cells a neighbouring site lies inside POSCAR_occ's default matching threshold, so "a site within
+        # the threshold" and "the closest site" are different sites
+        fcc = crystal.Crystal.FCC(1.0, "Ni")
+        return crystal.Crystal(fcc.lattice, [[np.zeros(3)], [np.array([0.5, 0.5, 0.5]), np.array([0.25, 0.25, 0.25]),
+                                                             np.array([0.75, 0.75, 0.75])]], ["Ni", "H"]), (1,)
     if name == "tet2":
         return crystal.Crystal(np.diag([1.0, 1.0, 1.5]),
                                [[np.zeros(3), np.array([0.5, 0.5, 0.3])]], ["T"]), ()
@@ -642,6 +649,9 @@ class Engine(object):
             inter = [1]
         if c == "intfirst" and rng.random() < 0.7:
             inter = [0]
+        if c == "fcctet":
+            inter = [1] if rng.random() < 0.7 else []
+            s = rng.choice(("222", "222", "221", "conv4", "odd6"))
         return {"crystal": c, "super": s, "Nsolute": ns, "interstitial": inter,
                 "class": "{}/{}/s{}{}".format(c, s, ns, "i" if inter else ""), "quiet": rng.choice((0, 0, 0.5, 0.9)), "nosym": rng.random() < 0.08}
 
